@@ -1,7 +1,795 @@
-//! C29 — not built yet.
-use vcore::Ctx;
+//! C29 — DataLoader cache operations behave like the documented cache.
+//!
+//! Histories of load_one / load_many / feed_one / feed_many / clear / clear_one / enable_cache /
+//! enable_all_cache / get_cached_values over two key types are executed one operation at a time on a fresh
+//! `DataLoader` (queueing spawner drained after every operation, zero-delay timer) in lock-step with a reference
+//! cache model written from the documentation. The loader's values encode a per-call counter, so "served from
+//! the cache" and "served by the loader" are distinguishable for every key.
+use async_graphql::dataloader::{CacheFactory, CacheStorage, DataLoader, HashMapCache, Loader, LruCache, NoCache};
+use async_graphql::runtime::Timer;
+use futures_util::future::BoxFuture;
+use futures_util::task::{FutureObj, Spawn, SpawnError};
+use futures_util::FutureExt;
+use std::cell::Cell;
+use std::collections::{BTreeMap, BTreeSet, HashMap};
+use std::future::Future;
+use std::hash::Hash;
+use std::sync::{Arc, Mutex};
+use std::time::Duration;
+use vcore::det::{Sim, SpawnQueue};
+use vcore::drive::catch;
+use vcore::{json, Case, Ctx, Src};
 
-pub fn run(_ctx: &mut Ctx) {
-    eprintln!("C29: check not built yet");
-    std::process::exit(2);
+// ------------------------------------------------------------------------------------------------------
+// pieces shared with C28: cache-mode factory, queueing spawner, HashMap with a chosen iteration order
+
+#[derive(Clone, Copy, PartialEq, Eq, Debug)]
+pub(crate) enum Mode {
+    No,
+    Hash,
+    Lru(usize),
+}
+impl Mode {
+    pub(crate) fn name(self) -> String {
+        match self {
+            Mode::No => "NoCache".into(),
+            Mode::Hash => "HashMapCache".into(),
+            Mode::Lru(c) => format!("LruCache({})", c),
+        }
+    }
+}
+
+/// one factory type for the three documented cache implementations
+pub(crate) struct AnyCache(pub(crate) Mode);
+impl CacheFactory for AnyCache {
+    fn create<K, V>(&self) -> Box<dyn CacheStorage<Key = K, Value = V>>
+    where
+        K: Send + Sync + Clone + Eq + Hash + 'static,
+        V: Send + Sync + Clone + 'static,
+    {
+        match self.0 {
+            Mode::No => NoCache.create::<K, V>(),
+            Mode::Hash => HashMapCache::default().create::<K, V>(),
+            Mode::Lru(c) => LruCache::new(c).create::<K, V>(),
+        }
+    }
+}
+
+/// `Spawn` that only queues; the deterministic executor adopts the queue
+pub(crate) struct QSpawner(pub(crate) SpawnQueue);
+impl Spawn for QSpawner {
+    fn spawn_obj(&self, f: FutureObj<'static, ()>) -> Result<(), SpawnError> {
+        self.0.push("bg", Box::pin(f));
+        Ok(())
+    }
+}
+
+/// A std `HashMap` whose iteration order is the order of `pairs` (keys distinct). The order of a `HashMap` is
+/// unspecified and differs per instance (`RandomState`); a `Loader` returns one and the DataLoader inserts its
+/// entries into the cache in iteration order. Re-creating the map until the order matches makes every run a
+/// function of the case alone (expected n! attempts, n <= 6 here). The oracles never rely on the order.
+pub(crate) fn ordered_map<K: Hash + Eq + Copy, V: Copy>(pairs: &[(K, V)]) -> HashMap<K, V> {
+    let mut m: HashMap<K, V> = HashMap::new();
+    for _ in 0..20_000 {
+        m = HashMap::new();
+        m.extend(pairs.iter().copied());
+        if pairs.len() < 2 || m.keys().zip(pairs).all(|(a, b)| *a == b.0) {
+            break;
+        }
+    }
+    m
+}
+
+// ------------------------------------------------------------------------------------------------------
+// world: scripted loader over two key types
+
+trait KeyTy: Copy + Send + Sync + Hash + Eq + 'static {
+    const TY: usize;
+    fn mk(k: u8) -> Self;
+    fn ix(self) -> u8;
+}
+impl KeyTy for u32 {
+    const TY: usize = 0;
+    fn mk(k: u8) -> u32 {
+        k as u32
+    }
+    fn ix(self) -> u8 {
+        self as u8
+    }
+}
+impl KeyTy for u64 {
+    const TY: usize = 1;
+    fn mk(k: u8) -> u64 {
+        k as u64
+    }
+    fn ix(self) -> u8 {
+        self as u8
+    }
+}
+
+#[derive(Default)]
+struct Backing {
+    /// (key type, keys as passed) of every `Loader::load` call so far
+    calls: Vec<(usize, Vec<u8>)>,
+    /// behaviour of the next call(s): fail, omitted keys (bit mask), descending insertion order
+    fail: bool,
+    omit: u8,
+    desc: bool,
+}
+
+fn fresh_value(call: usize, key: u8) -> u32 {
+    1000 * (call as u32 + 1) + key as u32
+}
+
+struct ScriptedLoader(Arc<Mutex<Backing>>);
+impl<K: KeyTy> Loader<K> for ScriptedLoader {
+    type Value = u32;
+    type Error = u32;
+    async fn load(&self, keys: &[K]) -> Result<HashMap<K, u32>, u32> {
+        let mut b = self.0.lock().unwrap();
+        let j = b.calls.len();
+        b.calls.push((K::TY, keys.iter().map(|k| k.ix()).collect()));
+        if b.fail {
+            return Err(j as u32);
+        }
+        let mut ks: Vec<u8> = keys.iter().map(|k| k.ix()).filter(|k| b.omit & (1 << k) == 0).collect();
+        ks.sort();
+        ks.dedup();
+        if b.desc {
+            ks.reverse();
+        }
+        let pairs: Vec<(K, u32)> = ks.iter().map(|k| (K::mk(*k), fresh_value(j, *k))).collect();
+        Ok(ordered_map(&pairs))
+    }
+}
+
+struct ZeroTimer;
+impl Timer for ZeroTimer {
+    fn delay(&self, _d: Duration) -> BoxFuture<'static, ()> {
+        futures_util::future::ready(()).boxed()
+    }
+}
+
+type Dl = DataLoader<ScriptedLoader, AnyCache>;
+
+struct World {
+    sim: Sim,
+    dl: Arc<Dl>,
+    backing: Arc<Mutex<Backing>>,
+}
+
+enum Ran<T> {
+    Done(T),
+    Stalled,
+    Panicked(String),
+}
+
+impl World {
+    fn new(mode: Mode, max_batch: usize) -> World {
+        let sim = Sim::new();
+        let backing = Arc::new(Mutex::new(Backing::default()));
+        let dl = DataLoader::with_cache(ScriptedLoader(backing.clone()), QSpawner(sim.spawned.clone()), ZeroTimer, AnyCache(mode))
+            .max_batch_size(max_batch);
+        World { sim, dl: Arc::new(dl), backing }
+    }
+    /// run one operation as a task and every task it spawns until nothing is runnable
+    fn run<T: Send + 'static>(&mut self, f: impl Future<Output = T> + Send + 'static) -> Ran<T> {
+        let out: Arc<Mutex<Option<T>>> = Arc::new(Mutex::new(None));
+        let o2 = out.clone();
+        self.sim.spawn(
+            "op",
+            Box::pin(async move {
+                let v = f.await;
+                *o2.lock().unwrap() = Some(v);
+            }),
+        );
+        let sim = &mut self.sim;
+        match catch(|| sim.settle()) {
+            Err(p) => Ran::Panicked(p),
+            Ok(_) => match out.lock().unwrap().take() {
+                Some(v) => Ran::Done(v),
+                None => Ran::Stalled,
+            },
+        }
+    }
+}
+
+// ------------------------------------------------------------------------------------------------------
+// reference cache model (written from the documentation of NoCache / HashMapCache / LruCache and of
+// feed / clear / clear_one / enable_cache / enable_all_cache)
+
+/// LruCache: most recently used first; HashMapCache: ascending key; NoCache: always empty
+type State = Vec<(u8, u32)>;
+
+struct CacheModel {
+    mode: Mode,
+    /// every cache state that the documentation allows after the operations so far
+    states: BTreeSet<State>,
+    /// enable_cache::<K> flag of this key type
+    enabled: bool,
+    evicted: bool,
+}
+
+fn perms<T: Clone>(xs: &[T]) -> Vec<Vec<T>> {
+    if xs.len() <= 1 {
+        return vec![xs.to_vec()];
+    }
+    let mut out = vec![];
+    for i in 0..xs.len() {
+        let mut rest = xs.to_vec();
+        let x = rest.remove(i);
+        for mut p in perms(&rest) {
+            p.insert(0, x.clone());
+            out.push(p);
+        }
+    }
+    out
+}
+
+impl CacheModel {
+    fn new(mode: Mode) -> CacheModel {
+        CacheModel { mode, states: [vec![]].into_iter().collect(), enabled: true, evicted: false }
+    }
+    /// "Puts a key-value pair into the cache. If the key already exists in the cache, then it updates the
+    /// key's value"; an LRU treats that as a use and drops the least recently used entry beyond its capacity
+    fn put(&mut self, st: &mut State, k: u8, v: u32) {
+        match self.mode {
+            Mode::No => {}
+            Mode::Hash => {
+                st.retain(|e| e.0 != k);
+                st.push((k, v));
+                st.sort();
+            }
+            Mode::Lru(cap) => {
+                st.retain(|e| e.0 != k);
+                st.insert(0, (k, v));
+                if st.len() > cap {
+                    st.truncate(cap);
+                    self.evicted = true;
+                }
+            }
+        }
+    }
+    fn insert_seq(&mut self, pairs: &[(u8, u32)]) {
+        let old = std::mem::take(&mut self.states);
+        for mut st in old {
+            for (k, v) in pairs {
+                self.put(&mut st, *k, *v);
+            }
+            self.states.insert(st);
+        }
+    }
+    /// a batch whose insertion order is unspecified (it arrives as a `HashMap`)
+    fn insert_unordered(&mut self, pairs: &[(u8, u32)]) {
+        if !matches!(self.mode, Mode::Lru(_)) {
+            return self.insert_seq(pairs);
+        }
+        let old = std::mem::take(&mut self.states);
+        let ps = perms(pairs);
+        for st in old {
+            for p in &ps {
+                let mut s2 = st.clone();
+                for (k, v) in p {
+                    self.put(&mut s2, *k, *v);
+                }
+                self.states.insert(s2);
+            }
+        }
+    }
+    fn remove(&mut self, k: u8) {
+        self.states = std::mem::take(&mut self.states).into_iter().map(|mut s| {
+            s.retain(|e| e.0 != k);
+            s
+        }).collect();
+    }
+    fn clear(&mut self) {
+        self.states = [vec![]].into_iter().collect();
+    }
+    /// A load with caching enabled asked the loader for exactly `missed`; `got` is the Ok result (None if the
+    /// load failed). Keep the states in which exactly the other keys are held, with the returned values; a hit
+    /// is a use (the order of the uses within one load is unspecified).
+    fn load(&mut self, keys: &[u8], missed: &BTreeSet<u8>, got: Option<&BTreeMap<u8, u32>>) -> Result<bool, String> {
+        let mut next = BTreeSet::new();
+        let mut any_hit = false;
+        for st in &self.states {
+            let hits: Vec<u8> = keys.iter().copied().filter(|k| st.iter().any(|e| e.0 == *k)).collect();
+            let misses: BTreeSet<u8> = keys.iter().copied().filter(|k| !hits.contains(k)).collect();
+            if &misses != missed {
+                continue;
+            }
+            if let Some(m) = got {
+                if hits.iter().any(|k| m.get(k) != st.iter().find(|e| e.0 == *k).map(|e| &e.1)) {
+                    continue;
+                }
+            }
+            any_hit |= !hits.is_empty();
+            if let Mode::Lru(_) = self.mode {
+                for p in perms(&hits) {
+                    let mut s2 = st.clone();
+                    for k in p {
+                        let i = s2.iter().position(|e| e.0 == k).unwrap();
+                        let e = s2.remove(i);
+                        s2.insert(0, e);
+                    }
+                    next.insert(s2);
+                }
+            } else {
+                next.insert(st.clone());
+            }
+        }
+        if next.is_empty() {
+            return Err(format!(
+                "loader was asked for {:?} and the load returned {:?}, but the cache must be in one of the states {:?} ({}; LRU states list the most recently used entry first)",
+                missed, got, self.states, self.mode.name()
+            ));
+        }
+        self.states = next;
+        Ok(any_hit)
+    }
+    fn cached(&mut self, content: &BTreeMap<u8, u32>) -> Result<(), String> {
+        let next: BTreeSet<State> =
+            self.states.iter().filter(|st| &st.iter().copied().collect::<BTreeMap<u8, u32>>() == content).cloned().collect();
+        if next.is_empty() {
+            return Err(format!("get_cached_values returned {:?}, but the cache must be in one of the states {:?} ({})", content, self.states, self.mode.name()));
+        }
+        self.states = next;
+        Ok(())
+    }
+}
+
+// ------------------------------------------------------------------------------------------------------
+// histories
+
+#[derive(Clone, Debug)]
+enum Op {
+    Load { ty: usize, keys: Vec<u8>, one: bool, fail: bool, omit: u8, desc: bool },
+    Feed { ty: usize, pairs: Vec<(u8, u32)>, one: bool },
+    ClearOne { ty: usize, key: u8 },
+    Clear { ty: usize },
+    EnableType { ty: usize, on: bool },
+    EnableAll { on: bool },
+    Cached { ty: usize },
+}
+
+const KEYS: usize = 5;
+const F1: &str = "C29-F1";
+
+struct History {
+    mode: Mode,
+    max_batch: usize,
+    ops: Vec<Op>,
+}
+
+impl History {
+    fn text(&self) -> String {
+        let ty = |t: &usize| if *t == 0 { "u32" } else { "u64" };
+        let ops: Vec<String> = self
+            .ops
+            .iter()
+            .map(|o| match o {
+                Op::Load { ty: t, keys, one, fail, omit, desc } => {
+                    let mut s = if *one { format!("load_one::<{}>({})", ty(t), keys[0]) } else { format!("load_many::<{}>({:?})", ty(t), keys) };
+                    if *fail {
+                        s.push_str("[loader fails]");
+                    }
+                    if *omit != 0 {
+                        s.push_str(&format!("[loader omits {:?}]", (0..KEYS as u8).filter(|k| omit & (1 << k) != 0).collect::<Vec<_>>()));
+                    }
+                    if *desc {
+                        s.push_str("[desc]");
+                    }
+                    s
+                }
+                Op::Feed { ty: t, pairs, one } => {
+                    if *one {
+                        format!("feed_one::<{}>({},{})", ty(t), pairs[0].0, pairs[0].1)
+                    } else {
+                        format!("feed_many::<{}>({:?})", ty(t), pairs)
+                    }
+                }
+                Op::ClearOne { ty: t, key } => format!("clear_one::<{}>({})", ty(t), key),
+                Op::Clear { ty: t } => format!("clear::<{}>()", ty(t)),
+                Op::EnableType { ty: t, on } => format!("enable_cache::<{}>({})", ty(t), on),
+                Op::EnableAll { on } => format!("enable_all_cache({})", on),
+                Op::Cached { ty: t } => format!("get_cached_values::<{}>()", ty(t)),
+            })
+            .collect();
+        format!("{} max_batch_size={} fresh loader; {}", self.mode.name(), self.max_batch, ops.join("; "))
+    }
+}
+
+/// `allow_untouched_enable`: may `enable_cache::<K>` come before any other operation on K (the construct of
+/// C29-F1)? Returns the history and how many such draws were replaced.
+fn gen_history(s: &mut dyn Src, max_ops: usize, allow_untouched_enable: bool) -> (History, u64) {
+    let mode = match s.choose(7) {
+        0 => Mode::Hash,
+        1 => Mode::Lru(2),
+        2 => Mode::Lru(1),
+        3 => Mode::Lru(3),
+        4 => Mode::Lru(4),
+        5 => Mode::No,
+        _ => Mode::Lru(2),
+    };
+    let max_batch = [1000, 2, 1, 3][s.weighted(&[5, 1, 1, 1])];
+    let n = 1 + s.choose(max_ops);
+    let mut ops = vec![];
+    let mut touched = [false; 2];
+    let mut replaced = 0;
+    for i in 0..n {
+        let ty = s.weighted(&[5, 1]);
+        let key = |s: &mut dyn Src| s.choose(KEYS) as u8;
+        let mut op = match s.weighted(&[5, 5, 3, 2, 2, 1, 2, 2, 2]) {
+            0 => Op::Load { ty, keys: vec![key(s)], one: true, fail: s.chance(1, 12), omit: if s.chance(1, 8) { s.choose(32) as u8 } else { 0 }, desc: false },
+            1 => {
+                let k = s.weighted(&[1, 3, 6, 5, 3, 2]);
+                Op::Load {
+                    ty,
+                    keys: (0..k).map(|_| key(s)).collect(),
+                    one: false,
+                    fail: s.chance(1, 12),
+                    omit: if s.chance(1, 8) { s.choose(32) as u8 } else { 0 },
+                    desc: s.bool(),
+                }
+            }
+            2 => Op::Feed { ty, pairs: vec![(key(s), 500_000 + 10 * i as u32)], one: true },
+            3 => {
+                let k = s.choose(5);
+                Op::Feed { ty, pairs: (0..k).map(|j| (key(s), 500_000 + 10 * i as u32 + j as u32)).collect(), one: false }
+            }
+            4 => Op::ClearOne { ty, key: key(s) },
+            5 => Op::Clear { ty },
+            6 => Op::EnableType { ty, on: s.weighted(&[2, 1]) == 0 },
+            7 => Op::EnableAll { on: s.weighted(&[2, 1]) == 0 },
+            _ => Op::Cached { ty },
+        };
+        match &op {
+            Op::EnableType { ty, on } if !touched[*ty] && !allow_untouched_enable => {
+                replaced += 1;
+                op = Op::EnableAll { on: *on };
+            }
+            Op::Load { ty, .. } | Op::Feed { ty, .. } | Op::ClearOne { ty, .. } | Op::Clear { ty } | Op::EnableType { ty, .. } => touched[*ty] = true,
+            _ => {}
+        }
+        ops.push(op);
+    }
+    (History { mode, max_batch, ops }, replaced)
+}
+
+#[derive(Default)]
+struct Seen {
+    hit: bool,
+    miss: bool,
+    mixed: bool,
+    disabled_load: bool,
+    loader_error: bool,
+    omission: bool,
+    multi_state: bool,
+    immediate: bool,
+    second_type: bool,
+    untouched_enable: bool,
+    nocache_feed_then_load: bool,
+    evicted: bool,
+}
+
+struct Lockstep {
+    w: World,
+    models: [CacheModel; 2],
+    all_enabled: bool,
+    /// has any operation other than enable_cache / get_cached_values been applied to the key type?
+    touched: [bool; 2],
+    fed: [BTreeSet<u8>; 2],
+    seen: Seen,
+    f1_open: bool,
+}
+
+enum Step {
+    Ok,
+    Fail(String),
+    Known(&'static str),
+}
+
+fn ran<T>(r: Ran<T>, what: &str) -> Result<T, Step> {
+    match r {
+        Ran::Done(v) => Ok(v),
+        Ran::Stalled => Err(Step::Fail(format!("{} did not complete although every spawned task was run and the timer fires at once", what))),
+        Ran::Panicked(p) => Err(Step::Fail(format!("{} panicked: {}", what, p))),
+    }
+}
+
+impl Lockstep {
+    fn new(h: &History, f1_open: bool) -> Lockstep {
+        Lockstep {
+            w: World::new(h.mode, h.max_batch),
+            models: [CacheModel::new(h.mode), CacheModel::new(h.mode)],
+            all_enabled: true,
+            touched: [false; 2],
+            fed: Default::default(),
+            seen: Seen::default(),
+            f1_open,
+        }
+    }
+
+    fn step(&mut self, op: &Op, max_batch: usize) -> Step {
+        let r = match op {
+            Op::Load { ty: 0, .. } | Op::Feed { ty: 0, .. } | Op::ClearOne { ty: 0, .. } | Op::Clear { ty: 0 } | Op::EnableType { ty: 0, .. } | Op::Cached { ty: 0 } => {
+                self.step_typed::<u32>(op, max_batch)
+            }
+            Op::EnableAll { on } => {
+                let dl = self.w.dl.clone();
+                let on = *on;
+                match catch(move || dl.enable_all_cache(on)) {
+                    Ok(()) => {
+                        self.all_enabled = on;
+                        Ok(())
+                    }
+                    Err(p) => Err(Step::Fail(format!("enable_all_cache panicked: {}", p))),
+                }
+            }
+            _ => {
+                self.seen.second_type = true;
+                self.step_typed::<u64>(op, max_batch)
+            }
+        };
+        for m in &self.models {
+            self.seen.multi_state |= m.states.len() > 1;
+            self.seen.evicted |= m.evicted;
+        }
+        match r {
+            Ok(()) => Step::Ok,
+            Err(s) => s,
+        }
+    }
+
+    fn step_typed<K: KeyTy>(&mut self, op: &Op, max_batch: usize) -> Result<(), Step> {
+        let t = K::TY;
+        let dl = self.w.dl.clone();
+        match op {
+            Op::Load { keys, one, fail, omit, desc, .. } => {
+                let calls_before = {
+                    let mut b = self.w.backing.lock().unwrap();
+                    b.fail = *fail;
+                    b.omit = *omit;
+                    b.desc = *desc;
+                    b.calls.len()
+                };
+                let ks: Vec<K> = keys.iter().map(|k| K::mk(*k)).collect();
+                let actual: Result<BTreeMap<u8, u32>, u32> = if *one {
+                    let k = ks[0];
+                    ran(self.w.run(async move { dl.load_one(k).await }), "load_one")?.map(|o| o.into_iter().map(|v| (keys[0], v)).collect())
+                } else {
+                    ran(self.w.run(async move { dl.load_many(ks).await }), "load_many")?.map(|m| m.into_iter().map(|(k, v)| (k.ix(), v)).collect())
+                };
+                self.touched[t] = true;
+                let new_calls: Vec<(usize, Vec<u8>)> = self.w.backing.lock().unwrap().calls[calls_before..].to_vec();
+                if new_calls.len() > 1 || new_calls.iter().any(|c| c.0 != t) {
+                    return Err(Step::Fail(format!("one sequential load made these Loader::load calls (key type, keys): {:?}", new_calls)));
+                }
+                let distinct: Vec<u8> = keys.iter().copied().collect::<BTreeSet<u8>>().into_iter().collect();
+                let missed: BTreeSet<u8> = new_calls.first().map(|c| c.1.iter().copied().collect()).unwrap_or_default();
+                if !missed.iter().all(|k| distinct.contains(k)) {
+                    return Err(Step::Fail(format!("loader was asked for {:?}, not all of them requested", missed)));
+                }
+                let j = calls_before;
+                // the part of the result that must come from this loader call
+                let got = match (&actual, *fail && !missed.is_empty()) {
+                    (Err(e), true) => {
+                        if *e as usize != j {
+                            return Err(Step::Fail(format!("load failed with Err({}), the failing loader call returned Err({})", e, j)));
+                        }
+                        self.seen.loader_error = true;
+                        None
+                    }
+                    (Ok(m), false) => {
+                        for k in &missed {
+                            let want = if omit & (1 << k) != 0 { None } else { Some(fresh_value(j, *k)) };
+                            self.seen.omission |= want.is_none();
+                            if m.get(k).copied() != want {
+                                return Err(Step::Fail(format!("key {}: load returned {:?}, the loader returned {:?} for it", k, m.get(k), want)));
+                            }
+                        }
+                        if let Some(k) = m.keys().find(|k| !distinct.contains(k)) {
+                            return Err(Step::Fail(format!("result contains key {} that was not requested", k)));
+                        }
+                        Some(m)
+                    }
+                    (a, _) => {
+                        return Err(Step::Fail(format!("load returned {:?}; loader call made: {:?}, scripted to fail: {}", a, new_calls, fail)));
+                    }
+                };
+                let caching = self.all_enabled && self.models[t].enabled;
+                if caching {
+                    let any_hit = self.models[t].load(&distinct, &missed, got).map_err(Step::Fail)?;
+                    self.seen.hit |= any_hit;
+                    self.seen.miss |= !missed.is_empty();
+                    self.seen.mixed |= any_hit && !missed.is_empty();
+                    if let (Some(_), false) = (got, missed.is_empty()) {
+                        let pairs: Vec<(u8, u32)> = missed.iter().filter(|k| omit & (1 << **k) == 0).map(|k| (*k, fresh_value(j, *k))).collect();
+                        self.models[t].insert_unordered(&pairs);
+                    }
+                } else {
+                    // caching disabled: every requested key is the loader's, the cache is neither read nor filled
+                    if missed.len() != distinct.len() {
+                        return Err(Step::Fail(format!("caching is disabled but the loader was asked only for {:?} of {:?}", missed, distinct)));
+                    }
+                    self.seen.disabled_load |= !distinct.is_empty();
+                }
+                self.seen.immediate |= !missed.is_empty() && missed.len() >= max_batch;
+                if self.models[t].mode == Mode::No && distinct.iter().any(|k| self.fed[t].contains(k)) {
+                    self.seen.nocache_feed_then_load = true;
+                }
+                Ok(())
+            }
+            Op::Feed { pairs, one, .. } => {
+                let ps: Vec<(K, u32)> = pairs.iter().map(|(k, v)| (K::mk(*k), *v)).collect();
+                if *one {
+                    let (k, v) = ps[0];
+                    ran(self.w.run(async move { dl.feed_one(k, v).await }), "feed_one")?;
+                } else {
+                    ran(self.w.run(async move { dl.feed_many(ps).await }), "feed_many")?;
+                }
+                self.touched[t] = true;
+                self.fed[t].extend(pairs.iter().map(|p| p.0));
+                // "Feed some data into the cache": in the given order, whatever the enable flags say
+                self.models[t].insert_seq(pairs);
+                Ok(())
+            }
+            Op::ClearOne { key, .. } => {
+                let k = K::mk(*key);
+                catch(move || dl.clear_one(&k)).map_err(|p| Step::Fail(format!("clear_one panicked: {}", p)))?;
+                self.touched[t] = true;
+                self.models[t].remove(*key);
+                Ok(())
+            }
+            Op::Clear { .. } => {
+                catch(move || dl.clear::<K>()).map_err(|p| Step::Fail(format!("clear panicked: {}", p)))?;
+                self.touched[t] = true;
+                self.models[t].clear();
+                Ok(())
+            }
+            Op::EnableType { on, .. } => {
+                let on = *on;
+                let fresh = !self.touched[t];
+                self.seen.untouched_enable |= fresh;
+                match self.w.run(async move { dl.enable_cache::<K>(on).await }) {
+                    Ran::Done(()) => {
+                        self.models[t].enabled = on;
+                        Ok(())
+                    }
+                    Ran::Stalled => Err(Step::Fail("enable_cache did not complete".into())),
+                    // quirk C29-F1: enable_cache::<K> panics (Option::unwrap on None in src/dataloader/mod.rs) exactly
+                    // when no load / feed / clear / clear_one for K has been called on this DataLoader yet
+                    Ran::Panicked(p) if self.f1_open && fresh && p.contains("Option::unwrap()") && p.contains("dataloader/mod.rs") => Err(Step::Known(F1)),
+                    Ran::Panicked(p) => Err(Step::Fail(format!(
+                        "enable_cache::<K>({}) panicked{}: {}",
+                        on,
+                        if fresh { " on a key type that has not been used yet" } else { "" },
+                        p
+                    ))),
+                }
+            }
+            Op::Cached { .. } => {
+                let m = ran(self.w.run(async move { dl.get_cached_values::<K>().await }), "get_cached_values")?;
+                let content: BTreeMap<u8, u32> = m.into_iter().map(|(k, v)| (k.ix(), v)).collect();
+                self.models[t].cached(&content).map_err(Step::Fail)
+            }
+            Op::EnableAll { .. } => unreachable!("handled by step"),
+        }
+    }
+}
+
+fn run_history(h: &History, f1_open: bool) -> Case {
+    let mut ls = Lockstep::new(h, f1_open);
+    let text = h.text();
+    let mut verdict: Option<Case> = None;
+    for (i, op) in h.ops.iter().enumerate() {
+        match ls.step(op, h.max_batch) {
+            Step::Ok => {}
+            Step::Fail(why) => {
+                verdict = Some(Case::fail(text.clone(), format!("operation #{} ({:?}): {}", i, op, why)));
+                break;
+            }
+            Step::Known(f) => {
+                verdict = Some(Case::known(text.clone(), vec![f.to_string()]));
+                break;
+            }
+        }
+    }
+    let s = &ls.seen;
+    let nontrivial = (s.hit && s.miss) || s.nocache_feed_then_load;
+    let c = match verdict {
+        Some(c) => c,
+        None => Case::pass(text).nontrivial(nontrivial),
+    };
+    c.class(h.mode.name())
+        .class_if(s.hit, "load-served-from-cache")
+        .class_if(s.mixed, "load-partly-from-cache")
+        .class_if(s.disabled_load, "load-with-caching-disabled")
+        .class_if(s.loader_error, "loader-error")
+        .class_if(s.omission, "loader-omits-key")
+        .class_if(s.evicted, "lru-eviction")
+        .class_if(s.multi_state, "lru-insertion-order-ambiguous")
+        .class_if(s.immediate, "batch-reaches-max-batch-size")
+        .class_if(s.second_type, "second-key-type")
+        .class_if(s.untouched_enable, "enable_cache-before-first-use")
+        .class_if(s.nocache_feed_then_load, "nocache-feed-then-load")
+}
+
+pub fn run(ctx: &mut Ctx) {
+    ctx.rule = "random histories (1..=40 operations; load_one, load_many of 0..=5 keys with repeats, feed_one, feed_many, clear, clear_one, \
+                enable_cache, enable_all_cache, get_cached_values; 5 keys; two key types u32/u64 on one DataLoader; NoCache, HashMapCache, \
+                LruCache(1..=4); max_batch_size 1000/1/2/3; loader calls scripted to succeed, omit keys or fail) on a fresh DataLoader, one \
+                operation at a time, compared with a reference cache model; non-trivial = the history contains a load served (partly) from \
+                the cache and a load that reached the loader while caching was enabled (for NoCache: a load of a key that was fed before); \
+                distinct by the rendered history"
+        .into();
+    ctx.assume("operations are sequential: each one (and every task it spawned, with a timer that fires at once) runs to completion before the next starts; concurrency is C28's domain");
+    ctx.assume("reference decision: while caching is disabled (enable_all_cache(false) or enable_cache::<K>(false)) a load neither reads nor fills the cache; feed_*, clear, clear_one and get_cached_values act on the storage regardless of the flags; enable_cache::<K> is per key type, enable_all_cache is global, caching is enabled iff both are");
+    ctx.assume("reference decision: LruCache counts a hit of a load, a feed and a loader-filled entry as a use; get_cached_values is not a use");
+    ctx.assume("don't-care: the loader returns a HashMap, so the order in which one batch enters an LruCache is unspecified, and so is the order of the uses of the hits of one load_many; the model keeps every cache state either order allows and requires each observation (loader key set, returned values, get_cached_values) to be consistent with at least one");
+    ctx.assume("feed_many inserts in the order of the given Vec (sequential iterator)");
+    ctx.assume("a sequential load with at least one key not served from the cache makes exactly one Loader::load call (batch composition is C28's domain); the loader returns only keys it was asked for");
+    ctx.assume("harness: the returned HashMap is re-created until its iteration order is ascending/descending by key, only to make runs reproducible; the oracle does not use that order");
+
+    let f1_open = ctx.open(F1);
+    let n = ctx.tier.pick(300_000u32, 8_000_000u32);
+
+    // regression witnesses
+    let fresh_enable = |ty: usize, on: bool, mode: Mode| History { mode, max_batch: 1000, ops: vec![Op::EnableType { ty, on }, Op::Load { ty, keys: vec![1], one: true, fail: false, omit: 0, desc: false }] };
+    let promote = History {
+        mode: Mode::Lru(2),
+        max_batch: 1000,
+        ops: vec![
+            Op::Feed { ty: 0, pairs: vec![(0, 500_000), (1, 500_001)], one: false },
+            Op::Load { ty: 0, keys: vec![0], one: true, fail: false, omit: 0, desc: false },
+            Op::Feed { ty: 0, pairs: vec![(2, 500_020)], one: true },
+            Op::Cached { ty: 0 },
+            Op::Load { ty: 0, keys: vec![0, 1, 2], one: false, fail: false, omit: 0, desc: false },
+            Op::Cached { ty: 0 },
+        ],
+    };
+    let explicit = vec![
+        ("enable_cache(true) first, HashMapCache", fresh_enable(0, true, Mode::Hash)),
+        ("enable_cache(false) first, NoCache", fresh_enable(0, false, Mode::No)),
+        ("enable_cache(false) first, second key type, LruCache(2)", fresh_enable(1, false, Mode::Lru(2))),
+        ("LRU recency: hit protects from eviction", promote),
+    ];
+    for (name, h) in explicit {
+        let c = run_history(&h, f1_open);
+        if ctx.check_case("witness", c, json!({ "witness": name })) {
+            return;
+        }
+    }
+
+    if f1_open {
+        // the construct of the open finding, kept out of the main search below
+        let probes = ctx.tier.pick(2_000, 20_000);
+        ctx.stream("f1-probe", probes, 96, |s| {
+            let (h, _) = gen_history(s, 12, true);
+            run_history(&h, true)
+        });
+    }
+
+    let replaced = Cell::new(0u64);
+    ctx.stream("histories", n, 400, |s| {
+        let (h, r) = gen_history(s, 40, !f1_open);
+        replaced.set(replaced.get() + r);
+        run_history(&h, f1_open)
+    });
+    if f1_open {
+        for _ in 0..replaced.get() {
+            ctx.excluded(F1);
+        }
+    }
+
+    ctx.floor("load-served-from-cache", 30_000);
+    ctx.floor("load-partly-from-cache", 20_000);
+    ctx.floor("lru-eviction", 30_000);
+    ctx.floor("lru-insertion-order-ambiguous", 20_000);
+    ctx.floor("load-with-caching-disabled", 20_000);
+    ctx.floor("second-key-type", 20_000);
+    ctx.floor("NoCache", 10_000);
+    ctx.floor("HashMapCache", 10_000);
+    if !f1_open {
+        ctx.floor("enable_cache-before-first-use", 5_000);
+    }
 }
